@@ -103,6 +103,11 @@ def gen_problem(rng, scalar=None, family=None, N=None, S=None, ctor=None, weight
         builder_made = False
     spec = model_spec(x, basis, P, init, scalar=scalar, quant=quant, builder_made=builder_made,
                       fail_below=fail_below, dirty_fail=dirty_fail)
+    if not builder_made and fail_below is None and (N + int(init[0] * 16)) % 3 == 0:
+        # every third hand-written model computes from what set_params stored (the documented place for caching; before the first
+        # set_params it evaluates at all-zero parameters): the problem builder must hand it the initial guess through set_params.
+        # Decided from the generated content, so that the random stream of every check stays what it was.
+        spec["lazy"] = True
     Y = [[hx(dyadic(rng, -4, 4, 3), scalar) for _ in range(N)] for _ in range(S)]
     build = [["obs", N, Y]]
     wkind = weights if weights is not None else rng.choice(["none", "none", "pos", "mixed", "unit", "const"])
